@@ -194,6 +194,21 @@ class Ctx:
             cons = asm + [z3.BoolVal(False)]
         else:
             cons = asm + [z3.Or(*diffs)]
+            if len(diffs) > 1:
+                # bounded pre-pass per differing component: only the inputs that component depends on are
+                # restricted to the value grid, which keeps the SAT search tiny
+                S = modes.FSORT[w.in_ty]
+                g = [modes.fp_const(w.in_ty, p) for p in GRID] + [modes.fp_const(w.in_ty, core.rnd_frac(q, w.in_ty)) for q in GRID_INEXACT]
+                pairs = [(a, b) for a, b in zip(lhs, rhs) if a is not b]
+                for (a, b), dz in list(zip(pairs, diffs))[:12]:
+                    names = sorted(set(tm.free_args(a)) | set(tm.free_args(b)))
+                    if not names or len(names) > 6 or not all(nm_.startswith('x') for nm_ in names):
+                        continue
+                    restrict = [z3.Or(*[modes.smt_eq(z3.FP(nm_, S), c) for c in g]) for nm_ in names]
+                    v, model, secs, _ = core.solve(asm + [dz] + restrict, min(self.timeout, 10000))
+                    o.secs += secs
+                    if v == 'sat':
+                        return self.decide(o, asm + [dz] + restrict, w, replay, grid=False)
         return self.decide(o, cons, w, replay, grid=bool(diffs))
 
     def decide(self, o, cons, w, replay=None, grid=True, want_smt=None):
@@ -217,7 +232,7 @@ class Ctx:
             v, model, secs, smt = core.solve(cons, self.timeout, want_smt=ws)
         else:
             secs = 0.0
-        o.secs = secs + secs0
+        o.secs = (o.secs or 0.0) + secs + secs0
         o.smt = smt
         if o.hash is None:
             o.hash = hashlib.md5((o.oid + str(len(cons))).encode()).hexdigest()
